@@ -66,7 +66,7 @@ def gen_history(rng, objs, stages=None):
         seq = {"never": [], "tracked": ["track"], "valid": ["track", "validate"], "valid2": ["validate", "track"],
                "expired": ["track", "validate", "expire"], "expired_tracked": ["validate", "expire", "track"],
                "expired_valid": ["track", "validate", "expire", "validate"], "unval_expired": ["track", "expire"]}[st]
-        per.append([{"op": op, "obj": k} for op in seq])
+        per.append([{"op": ("track_ine" if op == "track" and rng.random() < 0.4 else op), "obj": k} for op in seq])
     ops = []
     while any(per):
         k = rng.choice([i for i, p in enumerate(per) if p])
@@ -185,6 +185,12 @@ def gen_scenarios(ctx, table):
 
     # 1. everything validated: all flips of every tag bit, all truncations
     objs = base_objects(rng)
+    if not quick:       # one Prefix registration per row of the table, so that every tag position is bit-flipped
+        have = {o["params"]["prefix_id"] for o in objs if o["transport"] == "prefix"}
+        for pid in table_ids:
+            if pid not in have:
+                objs.append({"secret": rhex(rng, 32), "transport": "prefix", "phantom": 3, "libver": 4,
+                             "params": {"kind": "prefix", "prefix_id": pid}})
     ops = gen_history(rng, objs, stages=["valid"] * len(objs))
     fl = std_flights(rng, objs, table_ids) + raw_flights(rng, table)
     mk(objs, ops, fl, std_probes(rng, objs, fl, quick, want_flips=True, want_trunc=True), name="all-valid")
@@ -349,7 +355,7 @@ class Scn:
             if o["err"] or note == "noobj":
                 continue
             ph, ident = gN(self.phs[o["phantom"]]), hexs(bytes.fromhex(o["id"]))
-            if op["op"] == "track":
+            if op["op"] in ("track", "track_ine"):
                 ts.append("Track %s %s %s" % (ph, ident, self.reg_term(op["obj"])))
             elif op["op"] == "validate":
                 ts.append("Validate %s %s %s" % (ph, ident, self.reg_term(op["obj"])))
@@ -367,7 +373,7 @@ class Scn:
             if o["err"] or note == "noobj":
                 continue
             key = (o["phantom"], o["id"])
-            if op["op"] == "track":
+            if op["op"] in ("track", "track_ine"):
                 st.setdefault(key, [op["obj"], False])
             elif op["op"] == "validate":
                 e = st.setdefault(key, [op["obj"], False])
